@@ -710,6 +710,21 @@ single(Fn("ahr2", ("impl", ["Af0"]), ["u64", "hrdyn"], is_async=True, props=("C0
 single(Fn("ahr3", ("impl", ["Af0"]), ["fnptr", "u64"], is_async=True))
 module("mhr", "Mhr", [Fn("mhr1", ("impl", ["Af0"]), ["hrfn", "u64"], is_async=True), Fn("mhr2", ("impl", ["F0"]), ["hrdyn", "u64"])])
 
+
+# ==== unusual but valid identifiers, large arities, large containers =========
+ODD_NAMES = ["a", "very_long_function_name_that_goes_on_and_on_for_quite_a_while_0123456789_abcdefghij", "__dunder", "trailing_", "with2numbers3",
+             "r#match", "gr\u00f6\u00dfe", "x1", "_lead", "fn_", "self_", "impl_fn", "new", "default", "clone_", "drop_it", "main_", "test", "await_"]
+for i, nme in enumerate(ODD_NAMES):
+    tr = f"OddName{i}"
+    single(Fn(nme, ("impl", ["F0"]), ["u64", "u64"], trait=tr, calls=["f0"]))
+module("modd", "Modd", [Fn(f"{nme.replace('r#', 'raw_')}_m", ("impl", ["F0"]), ["u64", f"name={nme}:u64"]) for nme in ODD_NAMES if nme not in ("a", "x1")])
+single(Fn("ary12", ("impl", ["F0"]), ["u64"] * 12))
+single(Fn("aary12", ("impl", ["Af0"]), ["u64"] * 12, is_async=True))
+single(Fn("ary16", ("impl", ["F0"]), ["u64"] * 16))
+single(Fn("ndary12", ("nodeps", []), ["u64"] * 12, opts="no_deps"))
+module("m12", "M12", [Fn(f"m12_{i}", ("impl", ["F0"]), ["u64", "u64"]) for i in range(12)])
+module("am12", "Am12", [Fn(f"am12_{i}", ("impl", ["Af0"]), ["u64", "u64"], is_async=True) for i in range(12)])
+
 N_PLAIN = METHOD_COUNTER[0]
 
 # ---- write corpus prelude -------------------------------------------------
@@ -961,6 +976,10 @@ trait_section("PlainSelfRef", "self", [
     Fn("apsr_this", SELF, ["name=this:selfref", "u64"], is_async=True),
 ])
 trait_section("PlainSame", "self", [Fn("psame", SELF, ["u64", "same:u64"]), Fn("psame3", SELF, ["u64", "u64", "same:u64"])])
+
+trait_section("Plain24", "self", [Fn(f"p24_{i}", SELF, ["u64", "u64"]) for i in range(24)])
+trait_section("PlainOdd", "self", [Fn(f"{nme.replace('r#', 'raw_')}_t", SELF, [f"name={nme}:u64", "u64"]) for nme in ODD_NAMES if nme not in ("a", "x1")])
+trait_section("PlainAr12", "self", [Fn("par12", SELF, ["u64"] * 12), Fn("apar12", SELF, ["u64"] * 12, is_async=True)])
 # the slot trait used by ret_refdeps (plain accessor, not recorded)
 corpus.append("""#[entrait]
 pub trait SlotRef {
@@ -1137,6 +1156,9 @@ inversion("DynInvNames", "DynInvNamesImpl", "dyn",
 inversion("InvDn", "InvDnImpl", "static",
           [(Fn(f"idn{N}", SELF, ["u64"] * N + ["destr:pair", f"name=arg{N}:pair"]), ("any", []), []) for N in range(0, 3)],
           delegate_ident="DelegateInvDn")
+
+inversion("Inv16", "Inv16Impl", "static", [(Fn(f"i16_{i}", SELF, ["u64", "u64"]), ("any", []), []) for i in range(16)]
+          + [(Fn("iar12", SELF, ["u64"] * 12), ("any", []), [])], delegate_ident="DelegateInv16")
 # --------------------------------------------------------------------------
 # un-mock section (C11): exported mock APIs; in the default build these are
 # ordinary entraited functions exercised through Impl<T> (C01)
@@ -1415,7 +1437,7 @@ disp += "];\n\n"
 
 def dispatch_fn(name, handle_ty, ab, is_async, methods, mock=False, cfg=""):
     asy = "async " if is_async else ""
-    out = f"{cfg}pub {asy}fn {name}(app: &{handle_ty}, m: u16, v: &[u64; 12], direct: bool, flavor: u8) -> u64 {{\n    match m {{\n"
+    out = f"{cfg}pub {asy}fn {name}(app: &{handle_ty}, m: u16, v: &[u64; 16], direct: bool, flavor: u8) -> u64 {{\n    match m {{\n"
     for fn in methods:
         if fn.is_async == is_async:
             out += arm(fn, ab, is_async, mock)
